@@ -411,6 +411,28 @@ def discharge(ctx, resolver, ob, timeout_ms, fuel=2):
     t0 = time.time()
     formulas = list(ob.assumptions) + [ob.goal]
     extra = unfold(ctx, resolver, formulas, fuel)
+
+    def cone(rounds, tmo):
+        """only the assumptions in the cone of influence of the goal (shared uninterpreted symbols).  Dropping
+        assumptions can only lose proofs, never create one: `unsat` is sound, anything else is ignored."""
+        keep = _cone_of_influence(ob.goal, list(ob.assumptions) + list(extra), rounds)
+        s3 = z3.Solver()
+        s3.set('timeout', tmo)
+        s3.add(T.atoms_distinct())
+        for a in keep:
+            s3.add(a)
+        s3.add(z3.Not(ob.goal))
+        try:
+            return (s3.check() == z3.unsat), s3
+        except z3.Z3Exception:
+            return False, s3
+
+    # 1. the reduced query first: most valid obligations need a handful of assumptions, and the irrelevant quantified
+    #    well-formedness axioms are what makes the full query slow and unstable
+    ok, s = cone(2, min(timeout_ms, 10000))
+    if ok:
+        return 'discharged', time.time() - t0, None, s
+    # 2. the full query (also the only one whose model is a counterexample)
     s = z3.Solver()
     s.set('timeout', timeout_ms)
     s.add(T.atoms_distinct())
@@ -419,10 +441,13 @@ def discharge(ctx, resolver, ob, timeout_ms, fuel=2):
     for e in extra:
         s.add(e)
     s.add(z3.Not(ob.goal))
-    r = s.check()
+    try:
+        r = s.check()
+    except z3.Z3Exception:
+        r = z3.unknown
     verdict = _verdict(r)
     if verdict == 'unknown':
-        # retry with a different seed / more fuel
+        # 3. retry with a different seed / more fuel
         s2 = z3.Solver()
         s2.set('timeout', timeout_ms)
         s2.set('random_seed', 7)
@@ -431,23 +456,18 @@ def discharge(ctx, resolver, ob, timeout_ms, fuel=2):
         for a in list(ob.assumptions) + extra2:
             s2.add(a)
         s2.add(z3.Not(ob.goal))
-        r2 = s2.check()
+        try:
+            r2 = s2.check()
+        except z3.Z3Exception:
+            r2 = z3.unknown
         if r2 != z3.unknown:
             verdict = _verdict(r2)
             s = s2
     if verdict == 'unknown':
-        # relevance filter: keep only the assumptions in the cone of influence of the goal (shared uninterpreted
-        # symbols, two rounds).  Dropping assumptions can only lose proofs, never create one: `unsat` here is sound;
-        # anything else is ignored (a model of the reduced problem means nothing).
+        # 4. wider cones with the full budget
         for rounds in (2, 3):
-            keep = _cone_of_influence(ob.goal, list(ob.assumptions) + list(extra), rounds)
-            s3 = z3.Solver()
-            s3.set('timeout', timeout_ms)
-            s3.add(T.atoms_distinct())
-            for a in keep:
-                s3.add(a)
-            s3.add(z3.Not(ob.goal))
-            if s3.check() == z3.unsat:
+            ok, s3 = cone(rounds, timeout_ms)
+            if ok:
                 verdict = 'discharged'
                 s = s3
                 break
